@@ -1099,6 +1099,10 @@ HLPread(accrec_t *access_rec, int32 length, void *datap)
     if (access_rec->posn + length > info->length)
         length = info->length - access_rec->posn;
 
+    /* the position may have been moved past the end of the element */
+    if (length < 0)
+        HGOTO_ERROR(DFE_RANGE, FAIL);
+
     /* search for linked block to start reading from */
     if (relative_posn < info->first_length) { /* first block */
         block_idx      = 0;
